@@ -433,7 +433,12 @@ impl DateTime {
         date_time = date_time.set_time(Time::from_nanos(nanoseconds)?);
 
         if let Some(offset) = time.offset {
-            date_time = date_time.as_offset(Offset::from_seconds(offset)?);
+            let offset = Offset::from_seconds(offset)?;
+            // The parsed fields are local time. The instant they denote has to be in range as well
+            nanos_to_days_nanos(
+                date_time.as_nanos() - offset.resolve() as i128 * NANOS_PER_SEC as i128,
+            )?;
+            date_time = date_time.as_offset(offset);
         }
 
         Ok(date_time)
